@@ -16,6 +16,8 @@ def distinct(e):
 def run(ctx):
     T = ctx.thorough
     ctx.tlc_mc("Sys_Reconnect", "MC_Reconnect_big.cfg" if T else "MC_Reconnect.cfg", timeout=1500)
+    if T:
+        ctx.tlc_mc("Sys_Reconnect", "MC_Reconnect_big2.cfg", timeout=1500)     # 3 callers, 4 generations, 6 calls (7.3 M states)
     for m in ("CloseDropped", "CheckClosedFlag", "LimitIsRecoverable", "ReconnectWhenNil", "ClosedCheckLocked"):
         ctx.tlc_mc("Sys_Reconnect", "MC_Reconnect_mut%s.cfg" % m, expect_violation=True)
     scns = ctx.tlc_gen("Sys_Reconnect", "Gen_Reconnect.cfg", num=300 if T else 40, depth=80)
